@@ -50,10 +50,10 @@ Definition sc1 (stop : option Z) (deadline : option Z) (maxel : Z) : scenario :=
      sc_tie := fun _ => [WCtx; WStop; WTimer] |}.
 
 Definition script1 : list attempt :=
-  [ {| a_dur := 10 * ms; a_res := RErr [LWrap; LPartial SLogs [2; 3; 3]] |};          (* partial: resend 2,3,3 *)
-    {| a_dur := 10 * ms; a_res := RErr [LThrottle (70 * ms); LPartial STraces [9]] |}; (* throttle; foreign data ignored *)
+  [ {| a_dur := 10 * ms; a_res := RErr (echain [LWrap; LPartial SLogs [2; 3; 3]]) |};          (* partial: resend 2,3,3 *)
+    {| a_dur := 10 * ms; a_res := RErr (echain [LThrottle (70 * ms); LPartial STraces [9]]) |}; (* throttle; foreign data ignored *)
     {| a_dur := 90 * ms; a_res := ROk |};                                              (* slower than the 50 ms timeout *)
-    {| a_dur := 10 * ms; a_res := RErr [LPartial SLogs [3]; LPerm] |};                 (* permanent deep in the chain *)
+    {| a_dur := 10 * ms; a_res := RErr (echain [LPartial SLogs [3]; LPerm]) |};                 (* permanent deep in the chain *)
     {| a_dur := 10 * ms; a_res := ROk |} ].
 
 (* starts, payloads and delays of the attempts; verdict *)
@@ -130,4 +130,22 @@ Example ex_tie_ctx :
   let sc t := {| sc_cfg := s4_cfg; sc_timeout := 0; sc_sig := SLogs; sc_payload := [1]; sc_deadline := None;
                  sc_cancel := Some 10; sc_stop := None; sc_draws := []; sc_tie := fun _ => t |} in
   (verdict_of (sc [WCtx]) s4_script, length (steps_of (sc [WTimer]) s4_script)) = (VCancelled, 2%nat).
+Proof. vm_compute. reflexivity. Qed.
+
+(* ---- combined errors -------------------------------------------------------------------------------- *)
+(* Join(plain, wrap(permanent)) is permanent; Join(throttle 30, Join(throttle 90, partial [2])): the first
+   throttle in depth-first order wins and the partial data inside the nested combination is found *)
+Example ex_join_classification :
+  is_permanent (EJoin [EBase; EWrap LWrap (EWrap LPerm EBase)]) = true /\
+  is_permanent (EWrap LWrap (EJoin [EBase; echain [LThrottle 5]])) = false /\
+  throttle_of (EJoin [echain [LThrottle 30]; EJoin [echain [LThrottle 90]; echain [LPartial SLogs [2]]]]) = Some 30 /\
+  partial_of SLogs (EJoin [echain [LThrottle 30]; EJoin [echain [LThrottle 90]; echain [LPartial SLogs [2]]]]) = Some [2] /\
+  is_shutdown (EJoin [EBase; echain [LWrap; LShutdown]]) = true.
+Proof. vm_compute. repeat split; reflexivity. Qed.
+
+(* a fan-out exporter reports Join(transient, permanent): exactly one attempt, permanent verdict *)
+Example ex_join_permanent_run :
+  let script := [ {| a_dur := 10 * ms; a_res := RErr (EJoin [EBase; echain [LPerm]]) |}; {| a_dur := 10 * ms; a_res := ROk |} ] in
+  (length (steps_of (sc1 None None 0) script), verdict_of (sc1 None None 0) script,
+   final_is_permanent (sc1 None None 0) script) = (1%nat, VPermanent, true).
 Proof. vm_compute. reflexivity. Qed.
